@@ -67,6 +67,37 @@ theorem pathShapeOk_f17Free (cps : List (PathControlPoint P)) (h : PathShapeOk c
       simp only [h0] at h ⊢
       exact chainOK_f17 rest t0 p0 h.2.2.2
 
+/-- a readable sufficient condition for `F17Free`: no control point after the first repeats its predecessor's position
+(as `==` sees it) and none is typed Catmull. -/
+def NoRepeat : PathControlPoint P → List (PathControlPoint P) → Prop
+  | _, [] => True
+  | a, b :: rest => Pos.eq b.pos a.pos = false ∧ b.pathType ≠ some PathType.catmull ∧ NoRepeat b rest
+
+omit [Scalar F] [Cvt P F] in
+theorem f17Chain_of_noRepeat (rest : List (PathControlPoint P)) :
+    ∀ (T : PathType) (a : PathControlPoint P), NoRepeat a rest → F17Chain T a rest := by
+  induction rest with
+  | nil => intro T a _; trivial
+  | cons b rest ih =>
+    intro T a h
+    obtain ⟨h1, h2, h3⟩ := h
+    rw [F17Chain]
+    cases hb : b.pathType with
+    | none =>
+      simp only
+      exact ⟨fun he => (by rw [h1] at he; cases he), ih T b h3⟩
+    | some t =>
+      simp only
+      exact ⟨fun _ => ⟨fun e => h2 (by rw [hb, e]), h1⟩, ih t b h3⟩
+
+omit [Scalar F] [Cvt P F] in
+theorem f17Free_of_noRepeat (p0 : PathControlPoint P) (rest : List (PathControlPoint P)) (h : NoRepeat p0 rest) :
+    F17Free (p0 :: rest) := by
+  simp only [F17Free]
+  split
+  · trivial
+  · exact f17Chain_of_noRepeat rest _ p0 h
+
 /-- **laws on path positions and path pieces** (see the file header). -/
 structure PathLaws (F P : Type) [Scalar F] [Scalar P] : Prop where
   eq : ∀ start : Pos P, CoordP start.x → CoordP start.y → EqLaws (CtrlPos F start)
